@@ -264,6 +264,69 @@ def run(ctx):
                 if anc.get("kind") == "IfStmt" and any(y.get("kind") == "MemberExpr" and y.get("name") == "param_type" for y in A.walk(A.kids(anc)[0])):
                     raise AnalysisBroken("R19.10: in %s the logarithmic bounds depend on the parameter type; the rule is written for bounds that are logarithms for every type" % q10)
 
+    # ---- R19.11: the loops that renumber the learn queue visit every slot
+    ctx.rule("R19.11", "RENUMBER-ALL: a counted loop whose body decrements the queue position of a slot it indexes (the renumbering after a slot left the learn queue) runs over every slot: evaluated with 4 slots and every value of the enclosing index, it visits 0, 1, 2, 3 - a waiting slot in front of the one just served would otherwise keep its old position and never reach the head")
+    n11 = 0
+    for q11, fns11 in sorted(u.functions.items()):
+        for fn11 in fns11:
+            if u.body(fn11) is None or not (A.loc(fn11)[0] or "").endswith(UNIT):
+                continue
+            for lp in A.walk(u.body(fn11)):
+                if lp.get("kind") != "ForStmt":
+                    continue
+                raw = lp.get("inner", [])
+                if len(raw) < 5 or not isinstance(raw[0], dict) or raw[0].get("kind") != "DeclStmt":
+                    continue
+                ivs = [d_ for d_ in A.kids(raw[0]) if d_.get("kind") == "VarDecl"]
+                if len(ivs) != 1:
+                    continue
+                iv = ivs[0]["id"]
+                # the body decrements a sentinel field of an element indexed by the loop variable, and no loop nested deeper does
+                decs = []
+                for x in A.walk(raw[4]):
+                    t_ = None
+                    if x.get("kind") == "UnaryOperator" and x.get("opcode") == "--":
+                        t_ = A.strip_casts(A.kids(x)[0])
+                    elif x.get("kind") == "CompoundAssignOperator" and x.get("opcode") == "-=":
+                        t_ = A.strip_casts(A.kids(x)[0])
+                    if t_ is not None and t_.get("kind") == "MemberExpr" and t_.get("referencedMemberDecl") in sentinel and \
+                            any(y.get("kind") == "DeclRefExpr" and (y.get("referencedDecl") or {}).get("id") == iv for y in A.walk(t_)):
+                        decs.append(x)
+                if not decs:
+                    continue
+                n11 += 1
+                outer = [y["referencedDecl"]["id"] for part in (raw[0], raw[2]) if isinstance(part, dict) for y in A.walk(part)
+                         if y.get("kind") == "DeclRefExpr" and (y.get("referencedDecl") or {}).get("kind") == "VarDecl" and y["referencedDecl"]["id"] != iv]
+                bad11 = []
+                try:
+                    for ov in (range(4) if outer else [None]):
+                        env11 = {o_: ov for o_ in outer} if outer else {}
+
+                        def hook11(n_, ev_):
+                            if n_.get("kind") == "MemberExpr" and n_.get("name") == "nslots":
+                                return 4
+                            # a helper that is handed the number of slots as a parameter (its call sites pass nslots)
+                            if n_.get("kind") == "DeclRefExpr" and (n_.get("referencedDecl") or {}).get("kind") == "ParmVarDecl" and \
+                                    FD.ctype(A.qtype(n_))[0] == "int" and (n_["referencedDecl"].get("name") or "").lower() in ("nslots", "n", "count", "num_slots", "n_slots", "size"):
+                                return 4
+                            return NotImplemented
+                        ev11 = FD.Eval(env=env11, node_hook=hook11, max_steps=400)
+                        ev11.run(raw[0])
+                        seen11 = []
+                        for _ in range(8):
+                            if not ev11.ev(raw[2]):
+                                break
+                            seen11.append(ev11.env[iv])
+                            ev11.ev(raw[3])
+                        if sorted(seen11) != [0, 1, 2, 3]:
+                            bad11.append({"enclosing_index": ov, "slots_visited": seen11})
+                except FD.Unknown as e:
+                    raise AnalysisBroken("R19.11: loop header in %s not evaluable: %s" % (q11, e))
+                ctx.ob("R19.11", "%s: renumbering loop@%s" % (q11, A.loc(lp)[1]), not bad11, site=A.where(lp), detail={"mismatches": bad11[:4]},
+                       key="R19.11:%s" % q11,
+                       what="%s renumbers the learn queue over the slots %s only (of 0..3): a waiting slot outside that range keeps its old position" % (q11, bad11[0]["slots_visited"] if bad11 else ""))
+    ctx.require(n11 >= 1, "R19.11: no counted renumbering loop found")
+
     # ---- R19.2
     fn = u.function("AutomationMgr::setSlotSub")
     emits = [c for c in A.calls_in(u.body(fn), "rtosc_message")]
